@@ -20,41 +20,94 @@ attribute [local irreducible] Goml.GoCompile.vn Goml.GoCompile.gid Goml.GoCompil
 
 /-! ### scalar types -/
 
-theorem scalarEq_eq : ∀ {a b : Ty}, scalarEq a b = true → a = b := by
-  intro a b h
-  cases a <;> cases b <;> simp [scalarEq] at h <;> first | rfl | (obtain ⟨h1, h2⟩ := h; subst h1; subst h2; rfl) | (subst h; rfl)
+theorem scalarEq_eq : ∀ {a b : Ty}, scalarEq a b = true → a = b
+  | .ref a, .ref b, h => by
+    simp only [scalarEq] at h
+    rw [scalarEq_eq h]
+  | .unit, b, h => by cases b <;> simp [scalarEq] at h <;> rfl
+  | .bool, b, h => by cases b <;> simp [scalarEq] at h <;> rfl
+  | .string, b, h => by cases b <;> simp [scalarEq] at h <;> rfl
+  | .int _ _, b, h => by cases b <;> simp [scalarEq] at h; obtain ⟨h1, h2⟩ := h; subst h1; subst h2; rfl
+  | .struct _, b, h => by cases b <;> simp [scalarEq] at h; subst h; rfl
+  | .enum _, b, h => by cases b <;> simp [scalarEq] at h; subst h; rfl
+  | .float _, b, h => by cases b <;> simp [scalarEq] at h
+  | .tuple _, b, h => by cases b <;> simp [scalarEq] at h
+  | .dyn _, b, h => by cases b <;> simp [scalarEq] at h
+  | .app _ _, b, h => by cases b <;> simp [scalarEq] at h
+  | .array _ _, b, h => by cases b <;> simp [scalarEq] at h
+  | .vec _, b, h => by cases b <;> simp [scalarEq] at h
+  | .param _, b, h => by cases b <;> simp [scalarEq] at h
+  | .func _ _, b, h => by cases b <;> simp [scalarEq] at h
+  | .tvar _, b, h => by cases b <;> simp [scalarEq] at h
+  | .ref _, .unit, h | .ref _, .bool, h | .ref _, .string, h | .ref _, .int _ _, h | .ref _, .struct _, h
+  | .ref _, .enum _, h | .ref _, .float _, h | .ref _, .tuple _, h | .ref _, .dyn _, h | .ref _, .app _ _, h
+  | .ref _, .array _ _, h | .ref _, .vec _, h | .ref _, .param _, h | .ref _, .func _ _, h | .ref _, .tvar _, h => by
+    simp [scalarEq] at h
+
+theorem scalarEq_refl : ∀ {a : Ty}, flatTy a = true → scalarEq a a = true
+  | .ref e, h => by simp only [flatTy] at h; simp only [scalarEq]; exact scalarEq_refl h
+  | .unit, _ | .bool, _ | .string, _ | .int _ _, _ | .struct _, _ | .enum _, _ => by simp [scalarEq]
+  | .float _, h | .tuple _, h | .dyn _, h | .app _ _, h | .array _ _, h | .vec _, h | .param _, h | .func _ _, h
+  | .tvar _, h => by simp [flatTy, scalarTy] at h
+
+theorem scalarEq_self_flat : ∀ {a : Ty}, scalarEq a a = true → flatTy a = true
+  | .ref e, h => by simp only [scalarEq] at h; simp only [flatTy]; exact scalarEq_self_flat h
+  | .unit, _ | .bool, _ | .string, _ | .int _ _, _ | .struct _, _ | .enum _, _ => rfl
+  | .float _, h | .tuple _, h | .dyn _, h | .app _ _, h | .array _ _, h | .vec _, h | .param _, h | .func _ _, h
+  | .tvar _, h => by simp [scalarEq] at h
 
 theorem scalarEq_flat {a b : Ty} (h : scalarEq a b = true) : flatTy a = true := by
-  cases a <;> cases b <;> simp [scalarEq] at h <;> rfl
+  have hab := scalarEq_eq h; subst hab
+  exact scalarEq_self_flat h
 
-theorem scalarEq_refl {a : Ty} (h : flatTy a = true) : scalarEq a a = true := by
-  cases a <;> simp [flatTy, scalarTy] at h <;> simp [scalarEq]
+/-- how the `Sem` store sits in the Go heap: for each store cell (a `Ref`) the type of its content and the
+    Go heap location of the cell struct the back end allocates for it -/
+structure Hp where
+  tys : List Ty := []
+  locs : List Nat := []
+  deriving Inhabited
+
+/-- the store grew: old cells keep their type and their Go location -/
+def Hp.le (η η' : Hp) : Prop := η.tys <+: η'.tys ∧ η.locs <+: η'.locs
+
+theorem Hp.le_refl (η : Hp) : η.le η := ⟨List.prefix_refl _, List.prefix_refl _⟩
+theorem Hp.le_trans {a b c : Hp} (h1 : a.le b) (h2 : b.le c) : a.le c :=
+  ⟨List.IsPrefix.trans h1.1 h2.1, List.IsPrefix.trans h1.2 h2.2⟩
+
+theorem prefix_get {α : Type} {l l' : List α} (h : l <+: l') {i : Nat} {a : α} (hi : l[i]? = some a) : l'[i]? = some a := by
+  obtain ⟨t, rfl⟩ := h
+  have hlt : i < l.length := by
+    rcases Nat.lt_or_ge i l.length with h | h
+    · exact h
+    · rw [List.getElem?_eq_none h] at hi; cases hi
+  rw [List.getElem?_append_left hlt]; exact hi
 
 mutual
 /-- the Go value of a goml value: scalars as they are (`C01.toG`), a struct value as the Go struct
     of its (escaped) name with its declared (escaped) field names, an enum value as the Go struct of
     its variant with the payload fields `_0, _1, …` -/
-def toGV (env : Env) : Val → Option GVal
+def toGV (env : Env) (η : Hp) : Val → Option GVal
   | .unit => some .unit
   | .bool b => some (.bool b)
   | .int n s v => some (.int n s v)
   | .str s => some (.str s)
   | .structV n vs =>
-    match env.getStruct n, toGVs env vs with
+    match env.getStruct n, toGVs env η vs with
     | some d, some gs => some (.struct (gid n) ((d.fields.map fun f => gid f.1).zip gs))
     | _, _ => none
   | .enumV n idx vs =>
-    match env.getEnum n, toGVs env vs with
+    match env.getEnum n, toGVs env η vs with
     | some d, some gs =>
       (match d.variants[idx]? with
        | some v => some (.struct (variantGoName env n v.1) ((fieldNames 0 gs.length).zip gs))
        | none => none)
     | _, _ => none
+  | .ref l => (η.locs[l]?).map GVal.ptr
   | _ => none
-def toGVs (env : Env) : List Val → Option (List GVal)
+def toGVs (env : Env) (η : Hp) : List Val → Option (List GVal)
   | [] => some []
   | v :: vs =>
-    match toGV env v, toGVs env vs with
+    match toGV env η v, toGVs env η vs with
     | some g, some gs => some (g :: gs)
     | _, _ => none
 end
@@ -62,7 +115,7 @@ end
 mutual
 /-- a value of a fragment type: scalars, values of admitted struct types field by field, values of
     admitted enum types (an existing variant, payload by payload) -/
-def HasTy (env : Env) : Val → Ty → Prop
+def HasTy (env : Env) (η : Hp) : Val → Ty → Prop
   | .unit, .unit => True
   | .bool _, .bool => True
   | .int b s _, .int b' s' => b = b' ∧ s = s'
@@ -70,44 +123,66 @@ def HasTy (env : Env) : Val → Ty → Prop
   | .structV n vs, .struct n' =>
     n = n' ∧ n ∈ goodStructs env ∧
       (match env.getStruct n with
-       | some d => HasTys env vs (d.fields.map (·.2))
+       | some d => HasTys env η vs (d.fields.map (·.2))
        | none => False)
   | .enumV n idx vs, .enum n' =>
     n = n' ∧ n ∈ goodEnums env ∧
       (match env.getEnum n with
        | some d =>
          (match d.variants[idx]? with
-          | some v => HasTys env vs v.2
+          | some v => HasTys env η vs v.2
           | none => False)
        | none => False)
+  | .ref l, .ref e => η.tys[l]? = some e
   | _, _ => False
-def HasTys (env : Env) : List Val → List Ty → Prop
+def HasTys (env : Env) (η : Hp) : List Val → List Ty → Prop
   | [], [] => True
-  | v :: vs, t :: ts => HasTy env v t ∧ HasTys env vs ts
+  | v :: vs, t :: ts => HasTy env η v t ∧ HasTys env η vs ts
   | _, _ => False
 end
 
-theorem hasTy_bool {env : Env} {v : Val} (h : HasTy env v .bool) : ∃ b, v = .bool b := by
+theorem hasTy_bool {env : Env} {η : Hp} {v : Val} (h : HasTy env η v .bool) : ∃ b, v = .bool b := by
   cases v <;> simp [HasTy] at h; exact ⟨_, rfl⟩
-theorem hasTy_unit {env : Env} {v : Val} (h : HasTy env v .unit) : v = .unit := by
+theorem hasTy_unit {env : Env} {η : Hp} {v : Val} (h : HasTy env η v .unit) : v = .unit := by
   cases v <;> simp [HasTy] at h; rfl
-theorem hasTy_str {env : Env} {v : Val} (h : HasTy env v .string) : ∃ s, v = .str s := by
+theorem hasTy_str {env : Env} {η : Hp} {v : Val} (h : HasTy env η v .string) : ∃ s, v = .str s := by
   cases v <;> simp [HasTy] at h; exact ⟨_, rfl⟩
-theorem hasTy_int {env : Env} {v : Val} {b s} (h : HasTy env v (.int b s)) : ∃ x, v = .int b s x := by
+theorem hasTy_int {env : Env} {η : Hp} {v : Val} {b s} (h : HasTy env η v (.int b s)) : ∃ x, v = .int b s x := by
   cases v <;> simp [HasTy] at h; obtain ⟨h1, h2⟩ := h; subst h1; subst h2; exact ⟨_, rfl⟩
 
 /-- on values of scalar type the conversion is `C01.toG` -/
-theorem toGV_scalar {env : Env} {v : Val} {t : Ty} (h : HasTy env v t) (hs : scalarTy t = true) : toGV env v = toG v := by
+theorem toGV_scalar {env : Env} {η : Hp} {v : Val} {t : Ty} (h : HasTy env η v t) (hs : scalarTy t = true) : toGV env η v = toG v := by
   cases v <;> cases t <;> simp [HasTy, scalarTy] at h hs <;> simp [toGV, toG]
 
-/-- worlds: what a run shows (`Sem.Outcome` compares `out` and `externs`) -/
-def WRel (w : World) (gw : GWorld) : Prop := gw.out = w.out ∧ gw.externs = w.externs
+/-- the Go heap cell of a `Ref` of element type `e` holding `gv`: `&ref_T{value: gv}` -/
+def refCell (e : Ty) (gv : GVal) : GVal := .struct (refStructName e) [("value", gv)]
+
+/-- worlds: what a run shows (`Sem.Outcome` compares `out` and `externs`), and the store against the
+    heap: cell `l` of the store has the type `η.tys[l]`, and its Go image is the cell struct at `η.locs[l]` -/
+structure WRel (env : Env) (η : Hp) (w : World) (gw : GWorld) : Prop where
+  out : gw.out = w.out
+  externs : gw.externs = w.externs
+  lenT : η.tys.length = w.store.size
+  lenL : η.locs.length = w.store.size
+  inj : η.locs.Nodup
+  bound : ∀ gl, gl ∈ η.locs → gl < gw.heap.size
+  cells : ∀ (l : Nat) (v : Val), w.store[l]? = some v → ∃ (e : Ty) (gl : Nat) (gv : GVal), η.tys[l]? = some e ∧ η.locs[l]? = some gl ∧ HasTy env η v e ∧
+    toGV env η v = some gv ∧ gw.heap[gl]? = some (refCell e gv)
+
+/-- printing: only `out` changes, the same way on both sides -/
+theorem WRel.print {env : Env} {η : Hp} {w : World} {gw : GWorld} (hw : WRel env η w gw) (s : String) :
+    WRel env η { w with out := w.out ++ s } { gw with out := gw.out ++ s } :=
+  ⟨by simp [hw.out], hw.externs, hw.lenT, hw.lenL, hw.inj, hw.bound, hw.cells⟩
+
+/-- the empty store against the empty heap -/
+theorem WRel.init (env : Env) (eager : Bool) (cp : Nat) : WRel env {} { eager := eager } { eager := eager, capPolicy := cp } :=
+  ⟨rfl, rfl, rfl, rfl, List.nodup_nil, fun gl h => by simp [Hp.locs] at h, fun l v h => by simp at h⟩
 
 /-! ### environments -/
 
-def EnvRel (env : Env) (Γ : Ctx) (ρ : Sem.Env) (gρ : GEnv) : Prop :=
+def EnvRel (env : Env) (η : Hp) (Γ : Ctx) (ρ : Sem.Env) (gρ : GEnv) : Prop :=
   (∀ x t, lookupTy Γ x = some t →
-    ∃ v gv, Sem.lookupEnv ρ x = some v ∧ lookupG gρ (vn x) = some gv ∧ toGV env v = some gv ∧ HasTy env v t) ∧
+    ∃ v gv, Sem.lookupEnv ρ x = some v ∧ lookupG gρ (vn x) = some gv ∧ toGV env η v = some gv ∧ HasTy env η v t) ∧
   (∀ x, lookupTy Γ x = none → Sem.lookupEnv ρ x = none)
 
 /-- what is known about the variants of variables (`K`) holds of the environment -/
@@ -182,9 +257,9 @@ theorem KRel.know {K : KCtx} {ρ : Sem.Env} (h : KRel K ρ) {x : String} {n : St
   · rw [lookupK_cons_ne _ _ hxz] at hz; exact h z j hz
 
 /-- a `let`: both environments grow by the same binding; the Go name is new -/
-theorem EnvRel.cons {env : Env} {Γ ρ gρ} (h : EnvRel env Γ ρ gρ) {x : String} {t : Ty} {v : Val} {gv : GVal}
-    (hfresh : ¬ vn x ∈ keys gρ) (hg : toGV env v = some gv) (ht : HasTy env v t) :
-    EnvRel env ((x, t) :: Γ) ((x, v) :: ρ) ((vn x, gv) :: gρ) := by
+theorem EnvRel.cons {env : Env} {η : Hp} {Γ ρ gρ} (h : EnvRel env η Γ ρ gρ) {x : String} {t : Ty} {v : Val} {gv : GVal}
+    (hfresh : ¬ vn x ∈ keys gρ) (hg : toGV env η v = some gv) (ht : HasTy env η v t) :
+    EnvRel env η ((x, t) :: Γ) ((x, v) :: ρ) ((vn x, gv) :: gρ) := by
   refine ⟨fun y ty hy => ?_, fun y hy => ?_⟩
   · by_cases hxy : x = y
     · subst hxy
@@ -200,11 +275,107 @@ theorem EnvRel.cons {env : Env} {Γ ρ gρ} (h : EnvRel env Γ ρ gρ) {x : Stri
       rw [lookupEnv_cons_ne _ _ hxy]; exact h.2 y hy
 
 /-- the Go environment may change where no variable in scope lives -/
-theorem EnvRel.go_agree {env : Env} {Γ ρ gρ gρ'} (h : EnvRel env Γ ρ gρ)
-    (hag : ∀ x t, lookupTy Γ x = some t → lookupG gρ' (vn x) = lookupG gρ (vn x)) : EnvRel env Γ ρ gρ' := by
+theorem EnvRel.go_agree {env : Env} {η : Hp} {Γ ρ gρ gρ'} (h : EnvRel env η Γ ρ gρ)
+    (hag : ∀ x t, lookupTy Γ x = some t → lookupG gρ' (vn x) = lookupG gρ (vn x)) : EnvRel env η Γ ρ gρ' := by
   refine ⟨fun y ty hy => ?_, h.2⟩
   obtain ⟨v', gv', h1, h2, h3, h4⟩ := h.1 y ty hy
   exact ⟨v', gv', h1, by rw [hag y ty hy]; exact h2, h3, h4⟩
+
+/-! ### a grown store keeps what was related -/
+
+mutual
+theorem toGV_mono {env : Env} {η η' : Hp} (hle : η.le η') : ∀ (v : Val) (gv : GVal), toGV env η v = some gv → toGV env η' v = some gv
+  | .unit, gv, h => by simpa [toGV] using h
+  | .bool _, gv, h => by simpa [toGV] using h
+  | .int _ _ _, gv, h => by simpa [toGV] using h
+  | .str _, gv, h => by simpa [toGV] using h
+  | .float _ _, gv, h => by simp [toGV] at h
+  | .tuple _, gv, h => by simp [toGV] at h
+  | .array _, gv, h => by simp [toGV] at h
+  | .vec _, gv, h => by simp [toGV] at h
+  | .closure _ _ _, gv, h => by simp [toGV] at h
+  | .fn _, gv, h => by simp [toGV] at h
+  | .dyn _ _ _, gv, h => by simp [toGV] at h
+  | .ref l, gv, h => by
+    simp only [toGV] at h ⊢
+    cases hl : η.locs[l]? with
+    | none => rw [hl] at h; simp at h
+    | some gl => rw [hl] at h; rw [prefix_get hle.2 hl]; exact h
+  | .structV n vs, gv, h => by
+    simp only [toGV] at h ⊢
+    cases hd : env.getStruct n with
+    | none => rw [hd] at h; simp at h
+    | some d =>
+      cases hgs : toGVs env η vs with
+      | none => rw [hd, hgs] at h; simp at h
+      | some gs => rw [hd, hgs] at h; rw [toGVs_mono hle vs gs hgs]; exact h
+  | .enumV n idx vs, gv, h => by
+    simp only [toGV] at h ⊢
+    cases hd : env.getEnum n with
+    | none => rw [hd] at h; simp at h
+    | some d =>
+      cases hgs : toGVs env η vs with
+      | none => rw [hd, hgs] at h; simp at h
+      | some gs => rw [hd, hgs] at h; rw [toGVs_mono hle vs gs hgs]; exact h
+theorem toGVs_mono {env : Env} {η η' : Hp} (hle : η.le η') : ∀ (vs : List Val) (gs : List GVal), toGVs env η vs = some gs → toGVs env η' vs = some gs
+  | [], gs, h => by simpa [toGVs] using h
+  | v :: vs, gs, h => by
+    simp only [toGVs] at h ⊢
+    cases h1 : toGV env η v with
+    | none => rw [h1] at h; simp at h
+    | some g =>
+      cases h2 : toGVs env η vs with
+      | none => rw [h1, h2] at h; simp at h
+      | some gs' => rw [h1, h2] at h; rw [toGV_mono hle v g h1, toGVs_mono hle vs gs' h2]; exact h
+end
+
+mutual
+theorem HasTy_mono {env : Env} {η η' : Hp} (hle : η.le η') : ∀ (v : Val) (t : Ty), HasTy env η v t → HasTy env η' v t
+  | .structV n vs, t, h => by
+    cases t <;> simp only [HasTy] at h ⊢ <;> try exact h.elim
+    obtain ⟨h1, h2, h3⟩ := h
+    refine ⟨h1, h2, ?_⟩
+    cases hd : env.getStruct n with
+    | none => rw [hd] at h3; exact h3.elim
+    | some d => rw [hd] at h3; exact HasTys_mono hle vs _ h3
+  | .enumV n idx vs, t, h => by
+    cases t <;> simp only [HasTy] at h ⊢ <;> try exact h.elim
+    obtain ⟨h1, h2, h3⟩ := h
+    refine ⟨h1, h2, ?_⟩
+    cases hd : env.getEnum n with
+    | none => rw [hd] at h3; exact h3.elim
+    | some d =>
+      rw [hd] at h3; simp only at h3 ⊢
+      cases hv : d.variants[idx]? with
+      | none => rw [hv] at h3; exact h3.elim
+      | some vd => rw [hv] at h3; exact HasTys_mono hle vs _ h3
+  | .ref l, t, h => by
+    cases t <;> simp only [HasTy] at h ⊢ <;> try exact h.elim
+    exact prefix_get hle.1 h
+  | .unit, t, h => by cases t <;> simp only [HasTy] at h ⊢ <;> exact h
+  | .bool _, t, h => by cases t <;> simp only [HasTy] at h ⊢ <;> exact h
+  | .int _ _ _, t, h => by cases t <;> simp only [HasTy] at h ⊢ <;> exact h
+  | .str _, t, h => by cases t <;> simp only [HasTy] at h ⊢ <;> exact h
+  | .float _ _, t, h => by cases t <;> simp only [HasTy] at h
+  | .tuple _, t, h => by cases t <;> simp only [HasTy] at h
+  | .array _, t, h => by cases t <;> simp only [HasTy] at h
+  | .vec _, t, h => by cases t <;> simp only [HasTy] at h
+  | .closure _ _ _, t, h => by cases t <;> simp only [HasTy] at h
+  | .fn _, t, h => by cases t <;> simp only [HasTy] at h
+  | .dyn _ _ _, t, h => by cases t <;> simp only [HasTy] at h
+theorem HasTys_mono {env : Env} {η η' : Hp} (hle : η.le η') : ∀ (vs : List Val) (ts : List Ty), HasTys env η vs ts → HasTys env η' vs ts
+  | [], [], _ => by simp [HasTys]
+  | [], _ :: _, h => by simp [HasTys] at h
+  | _ :: _, [], h => by simp [HasTys] at h
+  | v :: vs, t :: ts, h => by
+    simp only [HasTys] at h ⊢
+    exact ⟨HasTy_mono hle v t h.1, HasTys_mono hle vs ts h.2⟩
+end
+
+theorem EnvRel.mono {env : Env} {η η' : Hp} {Γ ρ gρ} (h : EnvRel env η Γ ρ gρ) (hle : η.le η') : EnvRel env η' Γ ρ gρ := by
+  refine ⟨fun x t hx => ?_, h.2⟩
+  obtain ⟨v, gv, h1, h2, h3, h4⟩ := h.1 x t hx
+  exact ⟨v, gv, h1, h2, toGV_mono hle v gv h3, HasTy_mono hle v t h4⟩
 
 /-! ### Go environments: lookups under prefixes and updates -/
 
